@@ -101,6 +101,21 @@ ENTRY(h_memblock){
         delete[] cp;
     }
     if(a1){
+        // grow one block by the smallest step that changes its layout (one more 64-byte line per row): the buffer of the first layout is exactly
+        // payload + trailer, so there is no room for it and the block must move to a larger buffer (the memory model decides every access)
+        {
+            const long kb = irsym_choose(NB);
+            if(KIND[kb] != 0){
+                std::array<long, NB> n3 = n;
+                do { ++n3[kb]; } while(blockBytes(int(kb), n3[kb]) == blockBytes(int(kb), n[kb]));
+                b.resetBlocksFromSizes(n3);
+                checkLayout(b, n3, 0);
+                const unsigned char* base = b.getPtr(); long pay = 0; for(int k = 0; k < NB; ++k) pay += blockBytes(k, n3[k]);
+                bool z = true; const long step = pay > 4096 ? 61 : 1; for(long i = 0; i < pay; i += step) z = z && base[i] == 0; if(pay) z = z && base[pay - 1] == 0;
+                irsym_assert(z, M_ZERO);
+                n = n3;
+            }
+        }
         // shrink and reuse: smaller counts keep the buffer; the published size must still describe where the trailer is
         unsigned char* before = b.getPtr();
         // dirty every payload byte first: a block that is re-laid-out in place must start from zero again
